@@ -20,7 +20,7 @@ CLAIMED = {
    technique='Coq proof (induction on fuel / size of the unified instance) + in-Coq differential correspondence'),
 }
 
-READY = ['C01', 'C02', 'C03', 'C05', 'C06', 'C07', 'C08', 'C09', 'C10', 'C13', 'C14', 'C15', 'C16', 'C18', 'C19']   # properties whose check is registered
+READY = ['C01', 'C02', 'C03', 'C04', 'C05', 'C06', 'C07', 'C08', 'C09', 'C10', 'C11', 'C12', 'C13', 'C14', 'C15', 'C16', 'C18', 'C19']   # properties whose check is registered
 
 NOT_YET = {
  'C01': 'check exists (text/answer correspondence of compiled programs against the Coq model of the compiled code and the Coq SLD reference) but the program-level theorem is still being proved; not claimed until Properties/C01.v states it',
@@ -91,7 +91,7 @@ def main():
                   'serves_properties': READY,
                   'kind_free_text': 'Coq 8.16.1 development (hand-written executable model + theorems) and a Python harness that evaluates the model inside Coq (vm_compute) and the implementation from /repo/src on the same generated cases'}],
      'checks': checks,
-     'notes': 'see DESIGN.md; known_findings.json lists repaired defects (fixed:) and the one recorded finding KF-C06-1',
+     'notes': 'see DESIGN.md; known_findings.json lists the repaired defects (fixed: D1-D22, incl. the former finding KF-C06-1); no known finding is open',
      'not_applicable': na,
     }
     json.dump(m, open(os.path.join(HERE, 'MANIFEST.json'), 'w'), indent=1)
